@@ -5,7 +5,7 @@
 From Coq Require Import ZArith List Bool String.
 From Coq Require Extraction.
 From Coq Require Import ExtrOcamlBasic ExtrOcamlString.
-From HV Require Import Model.ByteVecModel Model.ByteVecHeapModel.
+From HV Require Import Model.ByteVecModel Model.ByteVecHeapModel Model.MemOpsModel.
 Import ListNotations.
 Open Scope Z_scope.
 
@@ -175,7 +175,7 @@ Fixpoint exec (h : heap Z) (cs : list cmd) : list Z :=
              calls set_slice (ByteVecModel.setitem_slice) *)
           match h_load Z FUEL h o with
           | Some t =>
-              exec_step h (HMut o (HSetSlice (py_or os 0) (py_if_not_none oe (blen t)) v)) exec_after
+              exec_step h (HMut o (HSetSlice (fst (setitem_bounds t os oe)) (snd (setitem_bounds t os oe)) v)) exec_after
           | None => [1; -1]
           end
       | CGet o off =>
@@ -219,7 +219,162 @@ Definition c07_setitem (a : list Z) : list Z :=
   | _ => []
   end.
 
+(* ByteVec(bytes d)[start:stop]  ->  [len; bytes...] *)
+Definition c07_getitem (a : list Z) : list Z :=
+  match a with
+  | hs :: s :: he :: e :: n :: r =>
+      let d := firstn (zn n) r in
+      let v := append (@empty Z) (wrap false d) in
+      let os := if hs =? 1 then Some (zn s) else None in
+      let oe := if he =? 1 then Some (zn e) else None in
+      let g := getitem_slice Z 0 v os oe in
+      nz (blen g) :: flat g
+  | _ => []
+  end.
+
+(* ---- the memory-instruction layer (Model/MemOpsModel.v) ----
+   leaf:  sym n d1..dn start len          bvec:  k leaf1..leafk  (ByteVec([...]): appended)
+   basic op:  0 loc <leaf> | 1 loc sym x | 2 kind loc off size [<bvec> when kind = 3]
+              (kind 0 calldata, 1 code, 2 account without code, 3 account with code)
+              | 3 loc off size | 4 dst src size | 5 src dst
+   op:        <basic op> | 6 <bvec ccode> aloc asize nbody <basic ops> roff rsize oloc osize
+   input:     <bvec calldata> <bvec code> nops <ops>
+   output:    status (0 ok, 1 halt, 2 python exception, 3 malformed input)
+              [len; nlayout; layout...; nflat; flat...; nrd; rd...; msize]  *)
+Definition dec_leaf (l : list Z) : option (chunk Z * list Z) :=
+  match l with
+  | sym :: n :: r1 =>
+      match skipn (zn n) r1 with
+      | st :: ln :: r2 => Some (Leaf (sym =? 1) (firstn (zn n) r1) (zn st) (zn ln), r2)
+      | _ => None
+      end
+  | _ => None
+  end.
+
+Fixpoint dec_leaves (k : nat) (l : list Z) : option (list (chunk Z) * list Z) :=
+  match k with
+  | O => Some ([], l)
+  | S k' =>
+      match dec_leaf l with
+      | Some (c, r) =>
+          match dec_leaves k' r with
+          | Some (cs, r2) => Some (c :: cs, r2)
+          | None => None
+          end
+      | None => None
+      end
+  end.
+
+Definition dec_bvec (l : list Z) : option (bvec Z * list Z) :=
+  match l with
+  | k :: r =>
+      match dec_leaves (zn k) r with
+      | Some (cs, r2) => Some (from_leaves cs, r2)
+      | None => None
+      end
+  | [] => None
+  end.
+
+Definition dec_mbop (l : list Z) : option (mbop Z * list Z) :=
+  match l with
+  | t :: r =>
+      if t =? 0 then
+        match r with
+        | loc :: r1 => match dec_leaf r1 with Some (c, r2) => Some (MMStore (zn loc) c, r2) | None => None end
+        | _ => None
+        end
+      else if t =? 1 then
+        match r with loc :: sym :: x :: r1 => Some (MMStore8 (zn loc) (sym =? 1) x, r1) | _ => None end
+      else if t =? 2 then
+        match r with
+        | kind :: loc :: off :: size :: r1 =>
+            if kind =? 0 then Some (MCopyIn MCalldata (zn loc) (zn off) (zn size), r1)
+            else if kind =? 1 then Some (MCopyIn MCode (zn loc) (zn off) (zn size), r1)
+            else if kind =? 2 then Some (MCopyIn (MExt None) (zn loc) (zn off) (zn size), r1)
+            else match dec_bvec r1 with
+                 | Some (c, r2) => Some (MCopyIn (MExt (Some c)) (zn loc) (zn off) (zn size), r2)
+                 | None => None
+                 end
+        | _ => None
+        end
+      else if t =? 3 then
+        match r with loc :: off :: size :: r1 => Some (MRetCopy (zn loc) (zn off) (zn size), r1) | _ => None end
+      else if t =? 4 then
+        match r with dst :: src :: size :: r1 => Some (MMCopy (zn dst) (zn src) (zn size), r1) | _ => None end
+      else if t =? 5 then
+        match r with src :: dst :: r1 => Some (MLoadStore (zn src) (zn dst), r1) | _ => None end
+      else None
+  | [] => None
+  end.
+
+Fixpoint dec_mbops (k : nat) (l : list Z) : option (list (mbop Z) * list Z) :=
+  match k with
+  | O => Some ([], l)
+  | S k' =>
+      match dec_mbop l with
+      | Some (o, r) =>
+          match dec_mbops k' r with
+          | Some (os, r2) => Some (o :: os, r2)
+          | None => None
+          end
+      | None => None
+      end
+  end.
+
+Definition dec_mop (l : list Z) : option (mop Z * list Z) :=
+  match l with
+  | t :: r =>
+      if t =? 6 then
+        match dec_bvec r with
+        | Some (cc, aloc :: asize :: nb :: r1) =>
+            match dec_mbops (zn nb) r1 with
+            | Some (body, roff :: rsize :: oloc :: osize :: r2) =>
+                Some (MCall cc (zn aloc) (zn asize) body (zn roff) (zn rsize) (zn oloc) (zn osize), r2)
+            | _ => None
+            end
+        | _ => None
+        end
+      else match dec_mbop l with Some (b, r1) => Some (MB b, r1) | None => None end
+  | [] => None
+  end.
+
+Fixpoint dec_mops (k : nat) (l : list Z) : option (list (mop Z)) :=
+  match k with
+  | O => Some []
+  | S k' =>
+      match dec_mop l with
+      | Some (o, r) => match dec_mops k' r with Some os => Some (o :: os) | None => None end
+      | None => None
+      end
+  end.
+
+Definition c07_mem (a : list Z) : list Z :=
+  match dec_bvec a with
+  | Some (cd, r) =>
+      match dec_bvec r with
+      | Some (code, n :: r1) =>
+          match dec_mops (zn n) r1 with
+          | Some ops =>
+              match m_run 0 (ME cd code) (MF empty empty) ops with
+              | ROk st =>
+                  let t := m_mem st in
+                  let l := flat_map (fun kc => lay (snd kc) (fst kc)) (chunks t) in
+                  let f := flat t in
+                  let rd := flat (m_rd st) in
+                  [0; nz (blen t); nz (List.length l)] ++ l ++ [nz (List.length f)] ++ f
+                    ++ [nz (List.length rd)] ++ rd ++ [nz (msize t)]
+              | RHalt => [1]
+              | RErr => [2]
+              end
+          | None => [3]
+          end
+      | _ => [3]
+      end
+  | None => [3]
+  end.
+
 Definition table : list (string * (list Z -> list Z)) :=
-  [ ("c07_run"%string, c07_run); ("c07_setitem"%string, c07_setitem) ].
+  [ ("c07_run"%string, c07_run); ("c07_setitem"%string, c07_setitem);
+    ("c07_getitem"%string, c07_getitem); ("c07_mem"%string, c07_mem) ].
 
 Extraction "_build/C07/entries.ml" table.
